@@ -246,7 +246,8 @@ fn observe(ty: &str, cur: &[u8]) -> Vec<(&'static str, Result<Vec<u8>, String>)>
             let v = <$T>::new(cur).expect("observe: value was accepted before");
             vec![
                 ("as_c_str", guarded(|| c_bytes(v.as_c_str()))),
-                ("to_string", guarded(|| v.to_string().into_bytes())),
+                // (Display escapes control characters; the conversion into a String must not)
+                ("to_string", guarded(|| String::from(&v).into_bytes())),
                 ("serialize", guarded(|| ser(&v))),
             ]
         }};
@@ -260,7 +261,7 @@ fn observe(ty: &str, cur: &[u8]) -> Vec<(&'static str, Result<Vec<u8>, String>)>
             let v = Str8::from_bytes(cur).expect("observe: value was accepted before");
             vec![
                 ("as_c_str", guarded(|| c_bytes(v.as_c_str()))),
-                ("to_string", guarded(|| v.to_string().into_bytes())),
+                ("to_string", guarded(|| v.as_str().as_bytes().to_vec())),
                 ("serialize", guarded(|| ser(&v))),
             ]
         }
@@ -269,11 +270,11 @@ fn observe(ty: &str, cur: &[u8]) -> Vec<(&'static str, Result<Vec<u8>, String>)>
             // (internal names cannot be re-created through `new`)
             let r: Result<ServiceName, _> = s.try_into();
             let v = r.expect("observe: value was accepted before");
-            vec![("to_string", guarded(|| v.to_string().into_bytes())), ("serialize", guarded(|| ser(&v)))]
+            vec![("to_string", guarded(|| (*v).as_bytes().to_vec())), ("serialize", guarded(|| ser(&v)))]
         }
         "NodeName" => {
             let v = NodeName::new(core::str::from_utf8(cur).unwrap()).expect("observe: value was accepted before");
-            vec![("to_string", guarded(|| v.to_string().into_bytes())), ("serialize", guarded(|| ser(&v)))]
+            vec![("to_string", guarded(|| (*v).as_bytes().to_vec())), ("serialize", guarded(|| ser(&v)))]
         }
         _ => vec![],
     };
@@ -306,7 +307,11 @@ fn observe(ty: &str, cur: &[u8]) -> Vec<(&'static str, Result<Vec<u8>, String>)>
 /// valid up to the capacity, invalid only beyond it, cut by a NUL before / at / after it, ...
 fn inputs(ty: &str, rng: &mut vlib::rng::Rng, more: bool) -> Vec<Vec<u8>> {
     let c = cap(ty);
-    let mut lens: Vec<usize> = vec![0, 1, 2, 3, c.saturating_sub(1), c, c + 1, c + 2, 2 * c - 1, 2 * c, 2 * c + 1, 3 * c + 5];
+    let mut lens: Vec<usize> = if more {
+        vec![0, 1, 2, 3, c.saturating_sub(1), c, c + 1, c + 2, 2 * c - 1, 2 * c, 2 * c + 1, 3 * c + 5]
+    } else {
+        vec![0, 1, 2, c.saturating_sub(1), c, c + 1, 2 * c, 2 * c + 1]
+    };
     lens.sort();
     lens.dedup();
     let mut out: Vec<Vec<u8>> = vec![];
@@ -326,15 +331,17 @@ fn inputs(ty: &str, rng: &mut vlib::rng::Rng, more: bool) -> Vec<Vec<u8>> {
     };
     for &len in lens.iter() {
         for k in 0..3 {
-            out.push(base(len, k));
+            if more || len <= c + 1 || k == 0 {
+                out.push(base(len, k));
+            }
         }
         if len == 0 {
             continue;
         }
         // one byte of another kind at the interesting positions: first, just below / at / above the capacity, last
-        let mut pos: Vec<usize> = vec![0, len / 2, len - 1];
+        let mut pos: Vec<usize> = if more || len <= 3 { vec![0, len / 2, len - 1] } else { vec![0, len - 1] };
         for p in [c.wrapping_sub(2), c.wrapping_sub(1), c, c + 1] {
-            if p < len {
+            if p < len && (more || p + 1 >= c) {
                 pos.push(p);
             }
         }
@@ -342,8 +349,9 @@ fn inputs(ty: &str, rng: &mut vlib::rng::Rng, more: bool) -> Vec<Vec<u8>> {
         pos.dedup();
         for &p in pos.iter() {
             for (k, byte) in [(0usize, 0u8), (1, b'*'), (2, b'/'), (0, 1u8), (1, b'\\')] {
-                if !more && len > c + 2 && byte != 0 && p != c && p != len - 1 {
-                    continue; // quick tier: far beyond the capacity only the NUL positions and the boundary matter
+                // quick tier: beyond the capacity only the NUL positions and one invalid byte at the boundary matter
+                if !more && len > 3 && byte != 0 && !(byte == b'*' && (p == c || p + 1 == c || p == len - 1)) {
+                    continue;
                 }
                 let mut s = base(len, k);
                 s[p] = byte;
@@ -368,7 +376,7 @@ fn inputs(ty: &str, rng: &mut vlib::rng::Rng, more: bool) -> Vec<Vec<u8>> {
         b"iox2://", b"iox2://a", b"iox2:/a", b"a\0b", b"\0", b"\0a", b"a\\b", b"C:\\a", b" ", b"a b", b"\x7f", b"\x80", b"\xff"] {
         out.push(t.to_vec());
     }
-    let n = if more { 120 } else { 25 };
+    let n = if more { 120 } else { 12 };
     for _ in 0..n {
         let utf8 = rng.chance(1, 2);
         out.push(super::strings::rand_string(rng, c, utf8));
@@ -421,7 +429,7 @@ fn derived(o: &mut Out, run: &mut u64, rng: &mut vlib::rng::Rng, more: bool) {
     };
     // ---- from_path_and_file
     *run += 1;
-    o.w.emit(&json!({"k":"reset","run":*run,"ty":"FilePath"}));
+    o.w.emit(&json!({"k":"reset","run":*run,"ty":"FilePath","cls":"derived"}));
     let mut cur: Vec<u8> = vec![];
     let mut cases: Vec<(Vec<u8>, Vec<u8>)> = vec![];
     for (pl, fl) in [(0usize, 1usize), (0, 255), (1, 1), (1, 253), (1, 254), (1, 255), (100, 100), (100, 153), (100, 154), (100, 155), (200, 53),
@@ -441,8 +449,16 @@ fn derived(o: &mut Out, run: &mut u64, rng: &mut vlib::rng::Rng, more: bool) {
     cases.push((b"a/..".to_vec(), b"f".to_vec()));
     cases.push((b"..".to_vec(), b"f".to_vec()));
     cases.push((b".".to_vec(), b"..f".to_vec()));
+    // the results that end within two bytes of the capacity: one run each (class "fpaf-capacity", see NamesTrace.tla
+    // TolerateFpafPanic), after the others
+    cases.sort_by_key(|(p, f)| (p.len() + f.len() + 2 >= 255 && p.len() + f.len() <= 255) as u8);
     for (p, f) in cases.iter() {
         let (Ok(pp), Ok(ff)) = (Path::new(p), FileName::new(f)) else { continue };
+        if p.len() + f.len() + 2 >= 255 && p.len() + f.len() <= 255 {
+            *run += 1;
+            o.w.emit(&json!({"k":"reset","run":*run,"ty":"FilePath","cls":"fpaf-capacity"}));
+            cur.clear();
+        }
         let r = guarded(|| FilePath::from_path_and_file(&pp, &ff).map(|v| v.as_bytes().to_vec()).map_err(|e| format!("{e:?}")));
         match r {
             Ok(Ok(back)) => {
@@ -462,7 +478,7 @@ fn derived(o: &mut Out, run: &mut u64, rng: &mut vlib::rng::Rng, more: bool) {
     }
     // ---- new_normalized and add_path_entry
     *run += 1;
-    o.w.emit(&json!({"k":"reset","run":*run,"ty":"Path"}));
+    o.w.emit(&json!({"k":"reset","run":*run,"ty":"Path","cls":"derived"}));
     let mut cur: Vec<u8> = vec![];
     let mut raws: Vec<Vec<u8>> = vec![b"".to_vec(), b"/".to_vec(), b"//".to_vec(), b"a".to_vec(), b"a/".to_vec(), b"/a//b/./c/".to_vec(),
         b"./a".to_vec(), b"a/./".to_vec(), b"../a/..".to_vec(), b".".to_vec(), b"./.".to_vec(), b"/./".to_vec(), b"a*b".to_vec(), b"a\0".to_vec()];
@@ -515,7 +531,7 @@ pub fn main(args: &Args) {
     let mut run = 0u64;
     for ty in super::strings::TYPES {
         run += 1;
-        o.w.emit(&json!({"k":"reset","run":run,"ty":ty}));
+        o.w.emit(&json!({"k":"reset","run":run,"ty":ty,"cls":"ctors"}));
         run_type(&mut o, ty, &mut rng, more);
     }
     derived(&mut o, &mut run, &mut rng, more);
